@@ -4,6 +4,7 @@ import (
 	"fmt"
 	"go/token"
 	"go/types"
+	"os"
 	"sort"
 	"strings"
 
@@ -31,7 +32,10 @@ func init() {
 			{ID: "R09h", Floor: 1, Doc: "Reader.IndexReader answers (nil, nil) only for `Version == 1 || !Header.HasIndex()`: its callers test HasIndex and then use the reader unchecked, so any further nil outcome is a nil dereference on crafted headers", Run: ruleR09h},
 			{ID: "R09i", Floor: 1, Doc: "a length decoded with encoding/binary's uvarint readers (which admit values up to 2^64-1, unlike go-varint) is compared, unsigned, with a bound before it is converted to a signed integer: a negative section length makes seeks go backwards and scans never end", Run: ruleR09i},
 			{ID: "R09j", Floor: 1, Doc: "(nil, nil) outcomes: a library function whose first result is a pointer, interface, slice or map returns nil together with a nil error only where that is its documented contract (table); a new such outcome is a nil dereference waiting in callers that test only the error", Run: ruleR09j},
+			{ID: "R09k", Floor: 1, Doc: "no division or remainder by a value that can be zero: every integer `/` or `%` in the library whose divisor is not a constant is behind a comparison that excludes zero (a width or count decoded from an index is attacker-chosen)", Run: ruleR09k},
+			{ID: "R09l", Floor: 2, Doc: "parser limits are used as configured: ApplyOptions sets MaxAllowedHeaderSize/MaxAllowedSectionSize only as initial defaults, before the caller's options run, and never rewrites them afterwards (a limit of 0 means 'nothing may be buffered', not 'use the default')", Run: ruleR09l},
 			{ID: "R09f", Floor: 1, Doc: "singleWidthIndex.Unmarshal: bucket bytes come from an exact-length read of dataLen with its error tested", Run: ruleR09f},
+			{ID: "R09m", Floor: 2, Doc: "the CARv2 payload is read through a reader bounded by the header-declared size that can never run negative or past the source (= R14a)", Run: ruleR14a},
 		},
 	})
 }
@@ -1087,4 +1091,214 @@ func ruleR09j(c *Ctx, r *Report) {
 		}
 	}
 	r.Count("(nil, nil) returns in library packages", n)
+}
+
+func ruleR09k(c *Ctx, r *Report) {
+	n := 0
+	for _, fn := range c.RepoFuncs() {
+		if !inLib(fn) {
+			continue
+		}
+		ord := 0
+		eachInstr(fn, func(in ssa.Instruction) {
+			b, ok := in.(*ssa.BinOp)
+			if !ok || (b.Op != token.QUO && b.Op != token.REM) || !isIntegral(b.Type()) {
+				return
+			}
+			if _, isK := constInt(b.Y); isK {
+				return
+			}
+			n++
+			ord++
+			key := fmt.Sprintf("divisor-nonzero@%s#%d", fnKey(fn), ord)
+			d := canon(b.Y)
+			dfv, dbase := fieldOfLoad(d)
+			isD := func(v ssa.Value) bool {
+				cv := canon(v)
+				if cv == d || v == b.Y {
+					return true
+				}
+				// another load of the same field of the same object
+				if dfv != nil {
+					if fv, base := fieldOfLoad(cv); fv == dfv && canon(base) == canon(dbase) {
+						return true
+					}
+				}
+				return false
+			}
+			nonZeroGuards := func(g *ssa.Function, is func(ssa.Value) bool) []Edge {
+				var guards []Edge
+				guards = append(guards, cmpEdges(g, is, func(v ssa.Value) bool { k, ok := constInt(v); return ok && k >= 0 }, "gt")...)
+				guards = append(guards, cmpEdges(g, is, func(v ssa.Value) bool { k, ok := constInt(v); return ok && k >= 1 }, "ge")...)
+				guards = append(guards, cmpEdges(g, is, func(v ssa.Value) bool { k, ok := constInt(v); return ok && k == 0 }, "ne")...)
+				return guards
+			}
+			positive := func(v ssa.Value) bool { return positiveValue(v, 0) }
+			guards := nonZeroGuards(fn, isD)
+			if positive(b.Y) {
+				r.Hold(key, c.Pos(b.Pos()), "divisor is a positive constant plus non-negative terms")
+				return
+			}
+			// the divisor is a field whose every store in the repository puts a non-zero value there
+			if dfv != nil && (len(guards) == 0 || reach(fn, nil, edgeSet(guards))[b.Block()]) {
+				allGood, nStores := true, 0
+				for _, g := range c.RepoFuncs() {
+					eachInstr(g, func(in2 ssa.Instruction) {
+						st, ok := in2.(*ssa.Store)
+						if !ok {
+							return
+						}
+						fa, ok := st.Addr.(*ssa.FieldAddr)
+						if !ok || fieldVar(fa.X.Type(), fa.Field) != dfv {
+							return
+						}
+						nStores++
+						sv := canon(st.Val)
+						if positive(st.Val) {
+							return
+						}
+						// copied from the same field of another object of the type
+						if fv2, _ := fieldOfLoad(sv); fv2 == dfv {
+							return
+						}
+						gs := nonZeroGuards(g, func(v ssa.Value) bool { return canon(v) == sv || v == st.Val })
+						if len(gs) == 0 || reach(g, nil, edgeSet(gs))[st.Block()] {
+							allGood = false
+							if os.Getenv("CARLINT_DEBUG") != "" {
+								fmt.Fprintf(os.Stderr, "R09k: store to %s in %s at %s not shown non-zero (guards=%d)\n", dfv.Name(), fnKey(g), c.Pos(st.Pos()), len(gs))
+							}
+						}
+					})
+				}
+				if allGood && nStores > 0 {
+					r.Hold(key, c.Pos(b.Pos()), fmt.Sprintf("divisor is field %s, which every one of its %d stores sets to a value checked or known to be non-zero (a zero-valued struct is assumed not to be used)", dfv.Name(), nStores))
+					return
+				}
+			}
+			if len(guards) == 0 || reach(fn, nil, edgeSet(guards))[b.Block()] {
+				r.Viol(key, c.Pos(b.Pos()), "this "+b.Op.String()+" is reachable with a divisor that may be zero: an input that decodes to 0 here panics (integer divide by zero) instead of being rejected")
+				return
+			}
+			r.Hold(key, c.Pos(b.Pos()), "behind a comparison that excludes a zero divisor")
+		})
+	}
+	r.Count("integer divisions/remainders by non-constants in library packages", n)
+}
+
+func isLenLike(a Aff) bool {
+	for k := range a.T {
+		if !strings.HasPrefix(k, "len(") && !strings.HasPrefix(k, "U(") {
+			return false
+		}
+	}
+	return true
+}
+
+// nonNegValue / positiveValue: simple sign reasoning over SSA integer values.
+func nonNegValue(v ssa.Value, d int) bool {
+	if d > 8 {
+		return false
+	}
+	if k, ok := constInt(v); ok {
+		return k >= 0
+	}
+	if bt, ok := v.Type().Underlying().(*types.Basic); ok && bt.Info()&types.IsUnsigned != 0 {
+		return true
+	}
+	switch x := v.(type) {
+	case *ssa.Convert:
+		if bt, ok := x.X.Type().Underlying().(*types.Basic); ok && bt.Info()&types.IsUnsigned != 0 {
+			// unsigned -> wider signed keeps the value (uint32 -> int on 64-bit; on 32-bit a value >= 2^31 would
+			// wrap, which the callers bound separately)
+			return true
+		}
+		return nonNegValue(x.X, d+1)
+	case *ssa.Call:
+		if b, ok := x.Call.Value.(*ssa.Builtin); ok && (b.Name() == "len" || b.Name() == "cap") {
+			return true
+		}
+	case *ssa.BinOp:
+		if x.Op == token.ADD || x.Op == token.MUL {
+			return nonNegValue(x.X, d+1) && nonNegValue(x.Y, d+1)
+		}
+	case *ssa.UnOp:
+		if c := canon(v); c != v {
+			return nonNegValue(c, d+1)
+		}
+	case *ssa.Extract:
+		// the key of `for k := range m`: non-negative when every key ever put into m is
+		if nx, ok := x.Tuple.(*ssa.Next); ok && x.Index == 1 {
+			if rg, ok := nx.Iter.(*ssa.Range); ok {
+				m := canon(rg.X)
+				n, good := 0, true
+				if refs := m.Referrers(); refs != nil {
+					for _, ref := range *refs {
+						if mu, ok := ref.(*ssa.MapUpdate); ok {
+							n++
+							if !nonNegValue(mu.Key, d+1) {
+								good = false
+							}
+						}
+					}
+				}
+				return n > 0 && good
+			}
+		}
+	}
+	return false
+}
+
+func positiveValue(v ssa.Value, d int) bool {
+	if d > 8 {
+		return false
+	}
+	if k, ok := constInt(v); ok {
+		return k > 0
+	}
+	switch x := v.(type) {
+	case *ssa.Convert:
+		return positiveValue(x.X, d+1)
+	case *ssa.BinOp:
+		if x.Op == token.ADD {
+			return positiveValue(x.X, d+1) && nonNegValue(x.Y, d+1) || positiveValue(x.Y, d+1) && nonNegValue(x.X, d+1)
+		}
+		if x.Op == token.MUL {
+			return positiveValue(x.X, d+1) && positiveValue(x.Y, d+1)
+		}
+	case *ssa.UnOp:
+		if c := canon(v); c != v {
+			return positiveValue(c, d+1)
+		}
+	}
+	return false
+}
+
+func ruleR09l(c *Ctx, r *Report) {
+	fn, err := c.Func(modV2, "", "ApplyOptions")
+	if err != nil {
+		r.InfraFail("%v", err)
+		return
+	}
+	for _, fld := range []string{"MaxAllowedHeaderSize", "MaxAllowedSectionSize"} {
+		key := "limit-default@v2.ApplyOptions#" + fld
+		n, bad := 0, ""
+		eachInstr(fn, func(in ssa.Instruction) {
+			st, ok := in.(*ssa.Store)
+			if !ok {
+				return
+			}
+			fa, ok := st.Addr.(*ssa.FieldAddr)
+			if !ok || !fieldAddrIs(fa, modV2, "Options", fld) {
+				return
+			}
+			n++
+			if st.Block() != fn.Blocks[0] {
+				bad = fmt.Sprintf("Options.%s is assigned at %s after the caller's options were applied: a configured limit (including 0) is replaced", fld, c.Pos(st.Pos()))
+			}
+		})
+		if n == 0 {
+			bad = "no default is set for Options." + fld + ": parsers would run without a limit"
+		}
+		r.Check(bad == "", key, c.Pos(fn.Pos()), "default set once, before the options run", bad)
+	}
 }
